@@ -216,6 +216,8 @@ class C16(Property):
                     how[key] = 'mismatch'
             shapes[key] = shape
         self.stats['scanner_tie'] = ', '.join('%s: %s' % (k, how[k]) for k in sorted(how))
+        plain, plain_how = self.plain_modules(tbutils)
+        self.stats['plain_modules_tie'] = plain_how
 
         def pairs(rs):
             return '[' + ', '.join('(%d, %d)' % (a, b) for a, b in rs) + ']'
@@ -233,6 +235,9 @@ class C16(Property):
                'def sepCps : List Nat := %s\n\n' % (pairs(digits), pairs(spaces), seps))
         for name in sorted(shapes):
             src += 'def %s : List (List Char) := %s\n\n' % (name, strs(shapes[name]))
+        src += ('/-- the module names whose exception classes are printed without the module prefix (both copies of the test\n'
+                '    in the source: ExceptionInfo.from_exc_info and format_exception_only) -/\n'
+                'def plainModNames : List (List Char) := %s\n\n' % strs(plain))
         src += 'end C16.Gen\n'
         return {'C16_Tables.lean': src}
 
@@ -248,6 +253,48 @@ class C16(Property):
     }
     PROBE_TOKENS = ['File "', '", line ', ', in ', '7', '0', '\u0663', '\u00b2', 'a', ' ', '"', ',', 'F', 'line', 'in', '\u00e9']
     PROBE_UL = ['~', '^', ' ', 'x', '\t', '-', '\u00a0', '~^', '_']
+
+    def plain_modules(self, tbutils):
+        """the literal collections of module names the source tests `__module__` against (every `in` / `not in`
+        comparison with a tuple / list / set literal of strings that contains '__main__'); when the source has no such
+        literal (a refactored test) the names are found by asking both entry points about classes of ~35 candidate
+        module names"""
+        import ast
+        import inspect
+        found = []
+        try:
+            tree = ast.parse(inspect.getsource(tbutils))
+            for node in ast.walk(tree):
+                if isinstance(node, ast.Compare) and len(node.ops) == 1 and isinstance(node.ops[0], (ast.In, ast.NotIn)):
+                    c = node.comparators[0]
+                    if isinstance(c, (ast.Tuple, ast.List, ast.Set)) and c.elts and \
+                            all(isinstance(e, ast.Constant) and isinstance(e.value, str) for e in c.elts):
+                        names = sorted(set(e.value for e in c.elts))
+                        if '__main__' in names:
+                            found.append(names)
+        except (OSError, TypeError, SyntaxError):
+            found = []
+        if found:
+            if all(f == found[0] for f in found):
+                return found[0], 'source literals (%d)' % len(found)
+            return sorted(set(x for f in found for x in f)) + ['the-copies-differ'], 'source literals differ'
+        plain = []
+        for name in sorted(set(self.MOD_NAMES + ['__main__', 'builtins'])):
+            E = type('E', (Exception,), {})
+            E.__module__ = name
+            try:
+                try:
+                    raise E('x')
+                except E:
+                    a = tbutils.ExceptionInfo.from_current().exc_type
+                b = tbutils.format_exception_only(E, E('x'))[-1]
+            except Exception as e:
+                return ['probe-failed:' + exc_name(e)], 'probe failed'
+            if (a == 'E') != (b == 'E: x\n'):
+                return ['the-copies-differ:' + name], 'probe: the two entry points differ'
+            if a == 'E':
+                plain.append(name)
+        return plain, 'probe'
 
     def probe_lines(self, key):
         import random
@@ -1481,7 +1528,9 @@ class C16(Property):
             def h(x):
                 return '!' if x is None else hx(x if isinstance(x, str) else str(x))
             fr = ' '.join(','.join(h(x) for x in f) for f in obs['frames']) or '-'
-            s = hx(obs['str']) if 'str' in obs else 'X' + obs['str_exc']
+            # to_string() of frames read from the SyntaxError form (no function name) is outside the statement
+            # (today: KeyError): whatever it does is accepted, on both sides
+            s = '~' if any(f[2] is None for f in obs['frames']) else hx(obs['str']) if 'str' in obs else 'X' + obs['str_exc']
             out = 'ok n=%d %s | %s %s | %s | %s' % (len(obs['frames']), fr, hx(obs['type']), hx(obs['msg']), s,
                                                     h(obs['source_file']))
         if k == 't':
